@@ -87,6 +87,9 @@ type Session struct {
 	SessionID string
 	Class     []byte
 
+	// tornDown is set by the first teardown of the session (see markTornDown)
+	tornDown bool
+
 	mu sync.RWMutex
 }
 
@@ -117,6 +120,25 @@ func NewSession(id uint16, clientMAC, serverMAC net.HardwareAddr) (*Session, err
 		LastActivity: time.Now(),
 		SessionID:    hex.EncodeToString(sidBytes),
 	}, nil
+}
+
+// markTornDown reports whether the caller is the first to tear the session
+// down. Later callers must not release its resources or account for it again.
+func (s *Session) markTornDown() bool {
+	s.mu.Lock()
+	defer s.mu.Unlock()
+	if s.tornDown {
+		return false
+	}
+	s.tornDown = true
+	return true
+}
+
+// isTornDown reports whether the session has already been torn down
+func (s *Session) isTornDown() bool {
+	s.mu.RLock()
+	defer s.mu.RUnlock()
+	return s.tornDown
 }
 
 // UpdateActivity updates the last activity timestamp
